@@ -12,6 +12,27 @@ CHECKS = {
     technique="Lean 4 proof (functional induction over the comment automaton) + differential correspondence + metamorphic parsing",
     ref="DESIGN.md §4 C14"),
 }
+CHECKS['C01'] = dict(
+    text="Lean theorem uper_roundtrip_partial: for ALL well-formed types of the model universe and ALL accepted values and ALL continuations of the bit stream, "
+         "UPER decode(encode v ++ rest) = (canon v, rest) (structural induction over the type universe, no bound on nesting/sizes), outside the named finding predicates; "
+         "OER round-trip theorem in progress (model exists, statement validated); ber/der/per: the property is evaluated directly on the implementation. "
+         "The uper/oer models are tied to the code by byte-exact encode and value-exact decode correspondence on every generated case.",
+    note=NOTE_COMMON + "Partial: universe = BOOLEAN/NULL/INTEGER/ENUMERATED/OCTET+BIT STRING/5 string kinds/SEQUENCE(OPTIONAL,DEFAULT,additions)/SEQUENCE OF/CHOICE under AUTOMATIC TAGS; "
+         "REAL, OID, SET, time types, named bits, addition groups, references are exercised by correspondence-free direct checks only; CPython str codecs assumed.",
+    technique="Lean 4 proof (mutual structural induction over Ty) + differential correspondence with the compiled Lean model",
+    ref="DESIGN.md §4 C01")
+CHECKS['C15'] = dict(
+    text="Lean model of skip_tag/decode_length/decode_full_length; kernel-evaluated instances now, general theorems for all identifier/length octets and all prefixes being proved; "
+         "exact correspondence on every prefix of synthetic TLVs (tags to 2^28, lengths to 70000, padded long forms) and decode_with_length on typed messages.",
+    note=NOTE_COMMON + "decode_with_length on typed values is evaluated directly (BER model pending).",
+    technique="Lean 4 model + kernel evaluation + exhaustive-prefix correspondence",
+    ref="DESIGN.md §4 C15")
+CHECKS['C16'] = dict(
+    text="Lean theorems that every primitive read of the UPER/OER models with insufficient remaining data is the library's DecodeError (never a value, never foreign); "
+         "every strict byte prefix of generated encodings is checked on the implementation for 5 codecs and, for uper/oer, against the Lean model decoder.",
+    note=NOTE_COMMON + "Partial: the composition 'strict prefix of a whole encoding => error' is proved for primitives only so far; ber/der/per by direct evaluation.",
+    technique="Lean 4 proof (primitives) + all-cut-points differential check",
+    ref="DESIGN.md §4 C16")
 NOT_APPLICABLE = []
 
 def main():
